@@ -160,6 +160,21 @@ func runLockSeq(cfg *RunCfg, rep *Reporter, cov *Cov, code int, seq []lockAct) {
 	pub(l0)
 	pub(l0)
 	kClose(l0)
+	switch code % 3 {
+	case 1:
+		// a directory that was never opened for writing: segment files copied in (as Backup
+		// produces it), no lock file yet
+		os.Remove(filepath.Join(dir, ".lock"))
+	case 2:
+		if code%2 == 0 {
+			// the same, produced by the package-level Backup
+			bdir := dir + "-bk"
+			if err := klevdb.Backup(dir, bdir); err == nil {
+				os.RemoveAll(dir)
+				os.Rename(bdir, dir)
+			}
+		}
+	}
 	opts.Create = false
 	var slots [3]lockSlot
 	nOpen, rwOpen := 0, false
@@ -271,13 +286,47 @@ func runLockSeq(cfg *RunCfg, rep *Reporter, cov *Cov, code int, seq []lockAct) {
 			if rerr != nil {
 				continue
 			}
-			os.WriteFile(ipath, append([]byte{0xFF, 'k', 'l', 'e', 'v', 'i', 9, 0xFC}, orig[minInt(8, len(orig)):]...), 0o600)
+			logName, _ := ref.SegName(segs[len(segs)-1].Base)
+			lpath := filepath.Join(dir, logName)
+			origLog, _ := os.ReadFile(lpath)
+			tornLog := a == aCorruptRO && len(trace)%2 == 0 && len(origLog) > 20
+			if tornLog {
+				// a torn last record in the head log and an index that still lists it
+				os.WriteFile(lpath, origLog[:len(origLog)-5], 0o600)
+			} else {
+				os.WriteFile(ipath, append([]byte{0xFF, 'k', 'l', 'e', 'v', 'i', 9, 0xFC}, orig[minInt(8, len(orig)):]...), 0o600)
+			}
 			o := opts
 			if a == aCorruptRO {
-				o.Readonly, o.Check = true, true
+				o.Readonly, o.Check = true, !tornLog
+				o.Recover = tornLog
+			}
+			var before map[string][]byte
+			if a == aCorruptRO {
+				before = mustSnap(dir)
 			}
 			l, err := kOpen(dir, o)
+			if before != nil {
+				if err == nil {
+					kClose(l)
+					l = nil
+				}
+				after := mustSnap(dir)
+				for n, b := range before {
+					if strings.HasSuffix(n, ".log") && string(after[n]) != string(b) {
+						os.WriteFile(lpath, origLog, 0o600)
+						os.WriteFile(ipath, orig, 0o600)
+						fail("open-ro:modified-log-file", "a read-only Open (Check=%v Recover=%v) of a directory with a damaged head changed log file %s (%d -> %d bytes)", o.Check, o.Recover, n, len(b), len(after[n]))
+						return
+					}
+				}
+				cov.Distinct("lock", fmt.Sprintf("%s|open-ro-damaged-head|recover=%v|err=%v", st, o.Recover, err != nil))
+			}
+			os.WriteFile(lpath, origLog, 0o600)
 			os.WriteFile(ipath, orig, 0o600)
+			if before != nil && err == nil {
+				continue
+			}
 			if err == nil {
 				kClose(l)
 				continue // the damage did not make Open fail: nothing to learn here
